@@ -61,6 +61,18 @@ chk("C10", "runtime execution of the crossable constraint with both returned arr
     "Frames up to 1x3 and 2x2 x all segment subsets x single_cycle, near-valid random trails on 2x3..3x3 (thorough 4x3), primitive route sampled.",
     GRAPH_NOTE, "DESIGN.md §3 C10")
 
+chk("C12", "client-boundary judgement of every array operator form through Python syntax + runtime contracts (M-ARRAY) on _elementwise and the aggregate helpers; oracle = reference evaluation",
+    "Every operator form x operand-kind combination x shape (1D 0..5, 2D 0..4 x 0..4) is invoked and judged: class/shape, pointwise denotation under "
+    "all assignments of the operand variables, exception on shape/kind mismatch; helpers over random nestings incl. empty / constant-only forms.",
+    "ref_eval semantics; '=='/'!=' kind mismatch and Python literals of the other kind are outside the statement and unjudged", "DESIGN.md §3 C12")
+chk("C13", "runtime monitor (M-INDEX) on __getitem__/flatten/reshape replaying every call on the equivalent Python list of lists; small-scope exhaustive key sweep",
+    "All keys of the box (sizes 0..5, start/stop -7..7|None, steps +-1,2,3,7|None, ints -7..7) on 1D arrays and both axes of 2D arrays, coordinate lists, "
+    "huge bounds: identity/order/shape/IndexError must equal the list model.",
+    "Python list indexing is the specification; step 0 and 'no row selected + column out of range' unjudged", "DESIGN.md §3 C13")
+chk("C14", "runtime monitor (M-FRAME) on BoolGridFrame accessors, dual and the graph inference, compared with a lattice-geometry model",
+    "All frames 0..4 x 0..4 (thorough 7) x all coordinates inside/outside in both call styles; variable identity per geometric segment.",
+    "documented horizontal/vertical arrays define the segment of each variable", "DESIGN.md §3 C14")
+
 MANIFEST = dict(
     version=1,
     setup_cmd="./setup.sh",
